@@ -15,17 +15,18 @@
  * block writer as contracts (arbitrary answers - in particular "all bytes are
  * zero" for the tail AND for the fragment block that holds it).
  *
- *   C17.bp.nosparse_tail   (a) the worker never flags the tail sparse;
- *        (b) unless it is deduplicated against an equal stored chunk (C08), its
- *        bytes are put into a fragment block and the inode's fragment
- *        index / offset name that block and lie inside it;
- *        (c) that fragment block is never flagged IS_SPARSE by the worker,
- *        whatever its bytes are;
- *        (d) it is handed to the block writer with its full size and the
- *        fragment table entry of that index receives the location and size;
- *        (e) the inode is not turned into a sparse file: make_extended is not
- *        called, no block size word is written, the sparse counter is
- *        untouched.
+ *   C17.bp.nosparse_tail          the fragment block that holds the tail is
+ *        never flagged IS_SPARSE by the worker, whatever its bytes are (the
+ *        core: "stored, never replaced by a hole")
+ *   C17.bp.nosparse_tail.worker   the worker never flags the tail itself sparse
+ *   C17.bp.nosparse_tail.located  unless it is deduplicated against an equal
+ *        stored chunk (C08), its bytes are put into a fragment block and the
+ *        inode's fragment index / offset name that block and lie inside it
+ *   C17.bp.nosparse_tail.written  the block is handed to the block writer with
+ *        its full size, and the fragment table entry of that index receives
+ *        the location and size
+ *   C17.bp.nosparse_tail.inode_untouched  the inode is not turned into a sparse
+ *        file: make_extended is not called, no block size word is written
  * Shape: HAVE_FB (a fragment block is being filled when the tail arrives),
  * MERGE2 (a second tail of another file follows).
  */
@@ -303,7 +304,7 @@ void harness(void)
 	ret = process_block(&g_worker.w, &g_tail.b);
 	VERIF_ASSERT(ret == 0 && !(g_tail.b.flags & SQFS_BLK_IS_SPARSE) &&
 		     g_zero_calls == 0 && g_tail.b.size == tail_size,
-		     "C17.bp.nosparse_tail");
+		     "C17.bp.nosparse_tail.worker");
 
 	/* ---- main thread: tail-end packing ----------------------------------- */
 	ret = process_completed_fragment(&g_p.proc, &g_tail.b);
@@ -319,10 +320,10 @@ void harness(void)
 		     !(fblk->flags & SQFS_BLK_IS_FRAGMENT) &&
 		     fblk->index == g_setloc_index &&
 		     (sqfs_u64)g_setloc_offset + tail_size == fblk->size &&
-		     fblk->size <= BS, "C17.bp.nosparse_tail");
+		     fblk->size <= BS, "C17.bp.nosparse_tail.located");
 	VERIF_ASSERT(fblk == &g_tail.b ? g_memcpy_calls == 0 :
 		     (HAVE_FB && fblk == &g_fb.b && g_memcpy_calls == 1),
-		     "C17.bp.nosparse_tail");
+		     "C17.bp.nosparse_tail.located");
 	VERIF_COVER(fblk == &g_tail.b);
 #if HAVE_FB
 	VERIF_COVER(fblk == &g_fb.b);
@@ -359,27 +360,27 @@ void harness(void)
 		if (ret != 0 || (fblk->flags & SQFS_BLK_IS_SPARSE))
 			return;
 		VERIF_ASSERT(fblk->size >= 1 && fblk->size <= size_in,
-			     "C17.bp.nosparse_tail");
+			     "C17.bp.nosparse_tail.written");
 	}
 
 	/* ---- main thread: the completed fragment block ------------------------ */
 	ret = process_completed_block(&g_p.proc, fblk);
 	VERIF_ASSERT(g_write_calls == 1 && g_w_size == fblk->size &&
 		     g_w_data == fblk->data && !(g_w_flags & SQFS_BLK_IS_SPARSE),
-		     "C17.bp.nosparse_tail");
+		     "C17.bp.nosparse_tail.written");
 	if (ret == 0)
 		VERIF_ASSERT(g_ftset_calls == 1 && g_ftset_index == g_setloc_index &&
 			     g_ftset_loc == g_location &&
 			     SQFS_ON_DISK_BLOCK_SIZE(g_ftset_size) == fblk->size &&
 			     SQFS_IS_BLOCK_COMPRESSED(g_ftset_size) ==
 			     !!(fblk->flags & SQFS_BLK_IS_COMPRESSED),
-			     "C17.bp.nosparse_tail");
+			     "C17.bp.nosparse_tail.written");
 	/* the file did not become a sparse file behind the user's back */
 	VERIF_ASSERT(g_ext_calls == 0 && g_ino.i.base.type == SQFS_INODE_FILE &&
 		     g_ino.i.payload_bytes_used == 0 && g_ino_ptr == &g_ino.i,
-		     "C17.bp.nosparse_tail");
+		     "C17.bp.nosparse_tail.inode_untouched");
 	for (i = 0; i < 8; ++i)
-		VERIF_ASSERT(g_ino.extra[i] == word0[i], "C17.bp.nosparse_tail");
+		VERIF_ASSERT(g_ino.extra[i] == word0[i], "C17.bp.nosparse_tail.inode_untouched");
 	VERIF_COVER(ret == 0 && g_ftset_calls == 1);
 	VERIF_COVER(ret != 0);
 }
